@@ -82,6 +82,12 @@ pub mod virtual_inventory;
 
 mod model;
 
+/// Verification harnesses (compiled only under `cargo kani`, which sets `--cfg kani`).
+#[cfg(kani)]
+mod verif_harness {
+    include!(concat!(env!("GMSOL_VERIF_DIR"), "/kani/inc/store/market.rs"));
+}
+
 const MAX_NAME_LEN: usize = 64;
 
 /// Market.
